@@ -33,7 +33,7 @@ def fillFieldsWith (fill : Nat → List Nat → Val → Val) (d : Desc) (zfuel :
       if present then
         match v with
         | some x => some (fill f.ty na x)
-        | none => (zeroVal d zfuel f.ty).map (fill f.ty na)
+        | none => (Z.zeroVal d zfuel f.ty).map (fill f.ty na)
       else v
     fillFieldsWith fill d zfuel params fs vs (acc ++ [v'])
   | _, _, acc => acc
@@ -59,7 +59,7 @@ def handleHandShape : OpHandler := fun st op args =>
     | some sc, some ty =>
       let d := sc.desc
       let fuel := fuelFor d 256
-      match d.get? ty, zeroVal d fuel ty with
+      match d.get? ty, Z.zeroVal d fuel ty with
       | some (.struct s), some (.struct fs0) =>
         let step (acc : Option (List (Option Val))) (a : String) : Option (List (Option Val)) := do
           let fs ← acc
